@@ -753,9 +753,14 @@ func (r *Rule) executeTransformationsMultimatch(value string) ([]string, []error
 			errs = append(errs, err)
 			continue
 		}
-		// Every time a transformation generates a new value different from the previous one, the new value is collected to be evaluated
+		// Every time a transformation generates a new value different from the previous one, the new value is collected to be evaluated.
+		// Some transformations report a change although they give back what they got (the length of "1", the
+		// encoding of an empty string): that is not another value, and evaluating it again would run the
+		// rule's actions twice for one matched value.
 		if changed {
-			res = append(res, transformedValue)
+			if transformedValue != value {
+				res = append(res, transformedValue)
+			}
 			value = transformedValue
 		}
 	}
